@@ -214,6 +214,32 @@ def run(ctx):
                               observed=show(outs[0])[:200], required=show(outs[1])[:200])
             ctx.case(("converted", fam, conv, ts, off, si))
             ctx.count("converted", f"{fam}->{conv}")
+    # timestamps carrying a time zone whose UTC offset changes (daylight saving): Timing does datetime arithmetic, i.e. the k-th
+    # timestamp is start_time + (i+k)*interval as `datetime + timedelta` computes it (wall clock, same tzinfo) - the same for every
+    # window that contains it
+    import datetime as _dt
+
+    class DstZone(_dt.tzinfo):
+        """+01:00, +02:00 between 2025-03-30 02:00 and 2025-10-26 03:00 wall time"""
+        def _dst(self, d):
+            n = d.replace(tzinfo=None)
+            return _dt.datetime(2025, 3, 30, 2) <= n < _dt.datetime(2025, 10, 26, 3)
+        def utcoffset(self, d): return _dt.timedelta(hours=2 if self._dst(d) else 1)
+        def dst(self, d): return _dt.timedelta(hours=1 if self._dst(d) else 0)
+        def tzname(self, d): return "DST" if self._dst(d) else "STD"
+    zone = DstZone()
+    for start, step in ((_dt.datetime(2025, 3, 29, 20, 0, tzinfo=zone), _dt.timedelta(hours=1)), (_dt.datetime(2025, 10, 25, 22, 30, tzinfo=zone), _dt.timedelta(minutes=45)),
+                        (_dt.datetime(2025, 3, 30, 1, 59, 59, tzinfo=zone), _dt.timedelta(seconds=1)), (_dt.datetime(2025, 10, 26, 6, 0, tzinfo=zone), -_dt.timedelta(hours=1))):
+        for off in (None, _dt.timedelta(minutes=5)):
+            timing = Timing.create_with_regular_interval(step, start, off)
+            st = start if off is None else start + off
+            want_all = [st + k * step for k in range(14)]
+            for (i, n) in ((0, 14), (6, 7), (11, 2), (3, 1), (0, 1), (13, 1)):
+                o = outcome(lambda: list(timing.get_timestamps(i, n)))
+                ctx.case(("dst", str(start), str(step), off is None, i, n))
+                if o[0] != "ok" or o[1] != want_all[i:i + n] or any(x.tzinfo is not zone for x in o[1]):
+                    ctx.violation(what="regular get_timestamps across a change of the UTC offset", start=str(start), interval=str(step), offset=str(off), i=i, n=n,
+                                  observed=(show(o)[:160] if o[0] != "ok" else str([str(x) for x in o[1]])[:300]), required=str([str(x) for x in want_all[i:i + n]])[:300])
     # REGULAR / NONE without timestamp information
     for fam in ("dt", "ht", "bt"):
         for mode in ("NONE", "REGULAR"):
@@ -288,6 +314,13 @@ def run(ctx):
             if want and o[0] != "ok" or (not want and o[:2] != ("err", "ValueError")):
                 ctx.violation(what="create_with_irregular_interval", seq=s, fam=fam, ticks=[f(x) for x in s][:6],
                               observed=show(o), required="accepted" if want else "ValueError")
+            # every way of handing the sequence over is validated alike: list / tuple, copied or taken over (copy_timestamps=False)
+            for how, mkargs in (("list,copy=False", lambda: dict(timestamps=list(objs), copy_timestamps=False)), ("tuple,copy=False", lambda: dict(timestamps=tuple(objs), copy_timestamps=False)),
+                                ("list,copy=True", lambda: dict(timestamps=list(objs), copy_timestamps=True))):
+                o2 = outcome(lambda: Timing(SampleIntervalMode.IRREGULAR, **mkargs()))
+                if (o2[0] == "ok") != (o[0] == "ok") or (o2[0] == "err" and o2[1] != o[1]):
+                    ctx.violation(what="Timing(IRREGULAR, timestamps=…) verdict depends on how the sequence is handed over", how=how, seq=s, fam=fam,
+                                  observed=show(o2)[:120], required=show(o)[:120] + " (create_with_irregular_interval)")
             if want and o[0] == "ok" and fam.startswith("bt") and s:
                 i = len(s) // 3
                 og = outcome(lambda: [val(tv, x) for x in o[1].get_timestamps(i, len(s) - i)])
@@ -304,6 +337,11 @@ def run(ctx):
         o = outcome(Timing.create_with_irregular_interval, bad)
         if o[:2] != ("err", "TypeError"):
             ctx.violation(what="create_with_irregular_interval", seq=repr(bad), observed=show(o), required="TypeError")
+        if isinstance(bad, list):
+            for cp in (False, True):
+                o2 = outcome(lambda: Timing(SampleIntervalMode.IRREGULAR, timestamps=list(bad), copy_timestamps=cp))
+                if o2[:2] != ("err", "TypeError"):
+                    ctx.violation(what="Timing(IRREGULAR, timestamps=…)", seq=repr(bad), copy_timestamps=cp, observed=show(o2), required="TypeError")
     res = ctx.model([q for q, _ in reqs])
     if res is not None:
         for (q, want), got in zip(reqs, res):
